@@ -49,6 +49,7 @@ type Program struct {
 	repo                string
 	nBodies             int
 	genBodies           []byte
+	genFill             []byte
 }
 
 func (p *Program) isTarget(pkg *ssa.Package) bool { return pkg != nil && p.targets[pkg] }
@@ -105,6 +106,7 @@ func loadProgram(repo, harnessDir string) (*Program, error) {
 		return nil, fmt.Errorf("generator generation: %v", err)
 	}
 	overlay[filepath.Join(repo, "zz_verif_gen_fill.go")] = fill
+	genFillBytes := fill
 	if os.Getenv("SYMGO_DUMPGEN") != "" {
 		os.WriteFile(os.Getenv("SYMGO_DUMPGEN"), fill, 0o644)
 	}
@@ -144,6 +146,7 @@ func loadProgram(repo, harnessDir string) (*Program, error) {
 	p.loadTime, p.buildTime = loadT, time.Since(t1)
 	p.nBodies = nBodies
 	p.genBodies = gen
+	p.genFill = genFillBytes
 	for _, sp := range prog.AllPackages() {
 		p.pkgs[sp.Pkg.Path()] = sp
 		p.nPkgs++
